@@ -599,8 +599,14 @@ func (vc *VC) execSlice(fr *frame, x *ssa.Slice, st *state) {
 		vc.setTerm(fr, x, fmt.Sprintf("(str.substr %s %s (- %s %s))", v.T, lo, hi, lo))
 		return
 	case *types.Pointer:
-		if a, ok := u.Elem().Underlying().(*types.Array); ok && x.Low == nil && x.High == nil && v.Loc != nil && len(v.Loc.Path) == 0 {
-			vc.setTerm(fr, x, fmt.Sprintf("(mkSlice %s %d)", v.Loc.Ref, a.Len()))
+		if a, ok := u.Elem().Underlying().(*types.Array); ok && x.Low == nil && v.Loc != nil && len(v.Loc.Path) == 0 {
+			if x.High == nil {
+				vc.setTerm(fr, x, fmt.Sprintf("(mkSlice %s %d)", v.Loc.Ref, a.Len()))
+				return
+			}
+			hi := vc.get(fr, x.High).T
+			vc.oblige("bounds", "slice bound within array length", nil, vc.pos(fr, x.Pos()), st.reach, fmt.Sprintf("(and (<= 0 %s) (<= %s %d))", hi, hi, a.Len()))
+			vc.setTerm(fr, x, fmt.Sprintf("(mkSlice %s %s)", v.Loc.Ref, hi))
 			return
 		}
 	case *types.Slice:
